@@ -943,6 +943,23 @@ pub fn generate(tier: &str, seed: u64, out: &mut Out) {
             out.count("source:random");
             run_case(&CurveCase { mode, pts: pts.clone(), len }, tag, true, out);
         }
+        // requested length EXACTLY equal (bit for bit) to the cumulative length of a vertex of the
+        // natural curve: duplicated vertices (repeated anchors, Catmull inner vertices) give runs of
+        // equal cumulative lengths, and the cut must still be the natural prefix ending at that vertex
+        for mode in [(i % 4) as u8, ((i + 1) % 4) as u8] {
+            if let Ok(nat) = impl_curve(&CurveCase { mode, pts: pts.clone(), len: None }) {
+                let ls = nat.lengths().to_vec();
+                if ls.len() >= 3 {
+                    for _ in 0..2 {
+                        let k = 1 + r.below(ls.len() - 1);
+                        if ls[k].is_finite() && ls[k] > 0.0 {
+                            out.count("source:at-vertex-length");
+                            run_case(&CurveCase { mode, pts: pts.clone(), len: Some(ls[k]) }, "at-vertex", true, out);
+                        }
+                    }
+                }
+            }
+        }
         // a random fraction of the natural length, osu! mode (the D11 neighbourhood)
         if has_type(&pts, 1) {
             let f = r.unit();
